@@ -8,10 +8,10 @@ from sa.core import AnalysisError, Repo, Report, call_name, kwarg, parent, unpar
 from sa.fold import Folder, Ref, Partial
 from sa.selftest import Edit, Variant
 
-from sa.texts import T as _T
+from sa.texts import T as _TX
 
-EXPLANATION = _T["C13"]["explanation"] + " Not decided: " + _T["C13"]["not_decided"] + "."
-ASSUMPTIONS = _T["C13"]["assumptions"]
+EXPLANATION = _TX["C13"]["explanation"] + " Not decided: " + _TX["C13"]["not_decided"] + "."
+ASSUMPTIONS = _TX["C13"]["assumptions"]
 P = "C13"
 
 
